@@ -75,6 +75,9 @@ let () =
                     | "mul" -> op_mul m t a b
                     | "unm" -> op_unm m t a
                     | "bnot" -> op_bnot t a
+                    | "shlk" -> emit_shl shl_fast_width_left m t i64 true a b     (* literal count (untyped constant: int64) *)
+                    | "shrk" -> emit_shr shr_fast_width_left m t i64 true a b
+                    | "asrk" -> emit_asr asr_fast_width_left m t i64 true a b
                     | "cdiv" -> op_cdiv t a b
                     | "crem" -> op_crem t a b
                     | s -> failwith ("helper " ^ s))
